@@ -114,7 +114,7 @@ func drawScript(rt *rapid.T) c03script {
 			n := rapid.IntRange(0, 3).Draw(rt, "events")
 			it := Item{Kind: "profileevents", Signed: rapid.Bool().Draw(rt, "signed")}
 			for j := 0; j < n; j++ {
-				it.Events = append(it.Events, profEvent{Host: "h", Time: rapid.Uint32().Draw(rt, "ev-time"), Thread: rapid.Uint64().Draw(rt, "ev-thread"),
+				it.Events = append(it.Events, profEvent{Host: rapid.SampledFrom([]string{"h", "initiator", "shard-1", ""}).Draw(rt, "ev-host"), Time: rapid.Uint32().Draw(rt, "ev-time"), Thread: rapid.Uint64().Draw(rt, "ev-thread"),
 					Type: int8(rapid.IntRange(1, 2).Draw(rt, "ev-type")), Name: rapid.SampledFrom([]string{"Query", "SelectQuery", ""}).Draw(rt, "ev-name"), Value: rapid.Uint64Range(0, 1<<62).Draw(rt, "ev-val")})
 			}
 			s.items = append(s.items, it)
@@ -122,8 +122,8 @@ func drawScript(rt *rapid.T) c03script {
 			n := rapid.IntRange(0, 3).Draw(rt, "logs")
 			it := Item{Kind: "log"}
 			for j := 0; j < n; j++ {
-				it.Logs = append(it.Logs, logRow{Time: rapid.Uint32().Draw(rt, "lg-time"), Micro: 5, Host: "h", QueryID: "q", Thread: rapid.Uint64().Draw(rt, "lg-thread"),
-					Priority: int8(rapid.IntRange(1, 8).Draw(rt, "lg-prio")), Source: "src", Text: rapid.SampledFrom([]string{"hello", "", "\xff\x00"}).Draw(rt, "lg-text")})
+				it.Logs = append(it.Logs, logRow{Time: rapid.Uint32().Draw(rt, "lg-time"), Micro: rapid.Uint32Range(0, 999999).Draw(rt, "lg-micro"), Host: rapid.SampledFrom([]string{"h", "initiator", "shard-2"}).Draw(rt, "lg-host"), QueryID: rapid.SampledFrom([]string{"q", "", "other"}).Draw(rt, "lg-qid"), Thread: rapid.Uint64().Draw(rt, "lg-thread"),
+					Priority: int8(rapid.IntRange(1, 8).Draw(rt, "lg-prio")), Source: rapid.SampledFrom([]string{"src", "executeQuery", ""}).Draw(rt, "lg-src"), Text: rapid.SampledFrom([]string{"hello", "", "\xff\x00"}).Draw(rt, "lg-text")})
 			}
 			s.items = append(s.items, it)
 		case "tablecolumns":
